@@ -649,9 +649,10 @@ func c19R4(p *Prog, r *Report) {
 		if _, isAlloc := mu.Map.(*ssa.MakeMap); !isAlloc {
 			return
 		}
-		c, isC := mu.Value.(*ssa.Const)
-		if !isC || c.Value == nil || c.Value.ExactString() != "true" {
-			return
+		// a set: map[int]bool marked true and tested by value, or any map tested by presence (comma-ok)
+		markedTrue := false
+		if c, isC := mu.Value.(*ssa.Const); isC && c.Value != nil && c.Value.ExactString() == "true" {
+			markedTrue = true
 		}
 		// key is a counting phi; its loop bound is first + n and it starts at first
 		ph, ok := mu.Key.(*ssa.Phi)
@@ -693,7 +694,17 @@ func c19R4(p *Prog, r *Report) {
 		tested := false
 		for _, ref := range *mu.Map.Referrers() {
 			if lk, ok := ref.(*ssa.Lookup); ok && lk.Index == mu.Key && lk.Block().Dominates(mu.Block()) {
-				for _, r2 := range *lk.Referrers() {
+				var tests []ssa.Instruction
+				if lk.CommaOk {
+					for _, r2 := range *lk.Referrers() {
+						if ex, isEx := r2.(*ssa.Extract); isEx && ex.Index == 1 {
+							tests = append(tests, *ex.Referrers()...)
+						}
+					}
+				} else if markedTrue {
+					tests = *lk.Referrers()
+				}
+				for _, r2 := range tests {
 					if iff, ok := r2.(*ssa.If); ok {
 						for _, rt := range ReachAvoiding(as, iff, func(x ssa.Instruction) bool { return x == ssa.Instruction(mu) }, isErrReturn) {
 							_ = rt
@@ -995,6 +1006,19 @@ func c19More(p *Prog, r *Report) {
 							pc := NewPolyCtx(fn)
 							pc.G = true
 							if pc.Of(cmp.Y).Equal(pc.Of(call.Call.Args[2])) {
+								okRows = true
+							}
+						}
+					}
+				}
+				if !isPhi {
+					// the index of a range loop: its bound is the length of the ranged slice
+					for _, l := range RangeLoops(fn) {
+						if stripConv(rowV) == l.Idx {
+							isPhi = true
+							pc := NewPolyCtx(fn)
+							pc.G = true
+							if pc.lenOf(l.Over).Equal(pc.Of(call.Call.Args[2])) {
 								okRows = true
 							}
 						}
